@@ -15,6 +15,10 @@ pymin = sp.Function("pymin", positive=True)
 pymax = sp.Function("pymax", positive=True)
 
 
+class WeakDict(dict):
+    """weakref.Weak*Dictionary: a mapping that does not keep its values/keys alive"""
+
+
 class CmpKey:
     """functools.cmp_to_key(f)"""
     def __init__(self, cmp):
@@ -1031,8 +1035,10 @@ def external(I, dotted):
         return Builtin(dotted, refn)
     if dotted == "copy.copy":
         return I.builtins["copy.copy"]
-    if dotted in ("itertools", "collections", "functools", "operator"):
+    if dotted in ("itertools", "collections", "functools", "operator", "weakref"):
         return ModuleVal(dotted, external=dotted)
+    if dotted in ("weakref.WeakValueDictionary", "weakref.WeakKeyDictionary"):
+        return Builtin(dotted, lambda *a, **k: WeakDict())
     if dotted == "operator.itemgetter":
         return Builtin(dotted, lambda *ks: Builtin("itemgetter", (lambda x: subscript(I, x, ks[0])) if len(ks) == 1
                                                    else (lambda x: tuple(subscript(I, x, k_) for k_ in ks))))
